@@ -11,9 +11,10 @@
 // commands (names are percent-encoded, paths are /-separated group paths):
 //   file <fs-path>                       select the checkpoint file
 //   rm                                   remove it
-//   open READ|MODIFY|CREATE              (re)open the session handle -> ok | exc
-//   close                                drop the session handle
-//   write <via> <path> <name> <kind> <i> write catalogue value i through the session handle
+//   open <slot> READ|MODIFY|CREATE       (re)open the CheckpointFile in handle slot <slot> -> ok | exc
+//                                        (several slots can hold the SAME file open at once)
+//   close <slot>                         drop that CheckpointFile
+//   write <slot> <via> <path> <name> <kind> <i>   write catalogue value i through that slot
 //   read  <via> <path> <name> <kind> <i|-|?> <prefill>   read from a fresh READ handle
 //                                        -> match | mismatch got=.. want=.. | value .. | is <i> | other .. | exc ..
 //   fresh / endfresh                     bracket the reads of one observation: they share ONE fresh READ
@@ -484,7 +485,7 @@ int main() {
   H5::Exception::dontPrint();
   auto kinds = MakeKinds();
   std::string fname;
-  std::unique_ptr<CheckpointFile> session;
+  std::map<std::string, std::unique_ptr<CheckpointFile>> session;  // handle slot -> open file object
   std::unique_ptr<CheckpointFile> observer;
   std::string line;
   long seq = 0;
@@ -497,34 +498,39 @@ int main() {
     try {
       if (cmd != "read") observer.reset();  // an observation is a run of consecutive reads
       if (cmd == "file") {
-        session.reset();
+        session.clear();
         in >> fname;
         std::cout << "ok" << std::endl;
       } else if (cmd == "rm") {
-        session.reset();
+        session.clear();
         std::remove(fname.c_str());
         std::cout << "ok" << std::endl;
       } else if (cmd == "open") {
-        std::string lv;
-        in >> lv;
-        session.reset();  // Reopen = close, then open
-        session.reset(new CheckpointFile(fname, Level(lv)));
+        std::string slot, lv;
+        in >> slot >> lv;
+        session.erase(slot);  // Reopen = close, then open
+        session[slot].reset(new CheckpointFile(fname, Level(lv)));
         std::cout << "ok" << std::endl;
       } else if (cmd == "openmod") {  // the one-argument constructor (documented default: MODIFY)
-        session.reset();
-        session.reset(new CheckpointFile(fname));
+        std::string slot;
+        in >> slot;
+        session.erase(slot);
+        session[slot].reset(new CheckpointFile(fname));
         std::cout << "ok" << std::endl;
       } else if (cmd == "close") {
-        session.reset();
+        std::string slot;
+        in >> slot;
+        session.erase(slot);
         std::cout << "ok" << std::endl;
       } else if (cmd == "write") {
-        std::string via, path, name, kind;
+        std::string slot, via, path, name, kind;
         size_t idx;
-        in >> via >> path >> name >> kind >> idx;
-        if (!session) throw std::logic_error("driver: no session handle");
+        in >> slot >> via >> path >> name >> kind >> idx;
+        auto it = session.find(slot);
+        if (it == session.end() || !it->second) throw std::logic_error("driver: no session handle");
         KindBase& k = *kinds.at(kind);
         {
-          CheckpointWriter w = WriterFor(*session, via, path);
+          CheckpointWriter w = WriterFor(*it->second, via, path);
           k.write(w, PctDecode(name), idx);
         }
         std::cout << "ok" << std::endl;
